@@ -206,11 +206,13 @@ type placement struct {
 	Slot   string `json:"slot"`             // H:<name> | C:<name> | Q:<name> | B:<name>
 	Scheme string `json:"scheme,omitempty"` // header only
 	// Sep: what separates scheme and value on the wire ("" = one blank). RFC 9110: credentials = auth-scheme 1*SP token68
-	Sep   string `json:"scheme_separator,omitempty"`
-	Value string `json:"value"`
-	Kind  string `json:"kind"`
-	Class string `json:"class"`
-	For   int    `json:"for_position"` // chain position the item was generated for (-1: none)
+	Sep string `json:"scheme_separator,omitempty"`
+	// SchemeOnWire: the scheme as spelled in the request ("" = as configured). RFC 9110 11.1: auth-scheme is case-insensitive
+	SchemeOnWire string `json:"scheme_spelling,omitempty"`
+	Value        string `json:"value"`
+	Kind         string `json:"kind"`
+	Class        string `json:"class"`
+	For          int    `json:"for_position"` // chain position the item was generated for (-1: none)
 }
 
 type lreq struct {
